@@ -286,13 +286,16 @@ def r16_offered_then_edited(c, facts, rule='C18.R16'):
             some = P.enum_edges(sw).get('1') if sw.get('t') == 'switch' else None
             if some is None and P.try_arms(rn, b, t):
                 some = P.try_arms(rn, b, t)[0]
+            n += 1
             if some is None:
                 c.skip(R, 'rename:%s' % finder.split('::')[-1], 'result not matched directly')
                 continue
-            n += 1
             # from the Some arm, the next iteration / the return is reached only through the worker (or its error exit)
+            # (a helper that wraps both findings in one enum joins the two arms before the workers are called: any of the
+            # two workers counts, and a switch on an Option / Result of known variant is followed on that variant only)
             ends = {bb for bb, blk in rn.blocks() if blk['term']['t'] == 'return'} | {bb for bb, tt in P.call_blocks(rn, 'Iterator::next')}
-            if ends & rn.reachable_from(some, avoid=wb | P.err_blocks(rn)):
+            wall = {bb for bb, tt in P.call_blocks(rn, 'handlers::rename_variable', 'handlers::rename_qualifier')}
+            if ends & P.reachable_tracking_variants(rn, some, avoid=wall | P.err_blocks(rn)):
                 c.bad(R, 'rename:%s-result-dropped' % finder.split('::')[-1], 'rename can leave the arm in which %s found something without calling %s: a rename that prepareRename offered answers with no edits' % (finder, worker), **inst)
             else:
                 c.ok(R, inst)
